@@ -64,23 +64,57 @@ let run (args : (string * string) list) : string =
     | Some "none" -> None
     | Some v -> Some (nat_of_int (int_of_string v))
     | None -> if prim = "apply" then None else Some (nat_of_int len) in
-  (* the caller's pool size is what current_num_threads() returned at the call site *)
+  (* what the calling thread is: the kind follows from the call site, the size of its own
+     pool (for a pool worker) is carried by the case *)
+  let cpool = match get_opt args "cpool" with
+    | Some "none" | None -> None
+    | Some v -> Some (int_of_string v) in
+  let caller = match site, cpool with
+    | ("gspawn" | "gdetach"), _ -> OGlobalWorker
+    | _, Some n -> OCustomWorker (nat_of_int n)
+    | _, None -> OExternal in
+  let gw = nat_of_int g in
+  let model_cpool = match caller_pool gw caller with Some n -> Some (int_of_nat n) | None -> None in
+  let model_threads = int_of_nat (caller_threads gw caller) in
+  let show = function Some n -> string_of_int n | None -> "none" in
+  (* the case is consistent with the model's notion of the caller's pool (a global worker's
+     pool is the global pool; outside any pool there is none; install/cspawn/cli: pool) *)
+  add "cpool" (okb (model_cpool = cpool
+                    && (match site with "outside" -> cpool = None
+                                      | "gspawn" | "gdetach" -> cpool = Some g
+                                      | _ -> cpool = Some pool))
+                 ("model:" ^ show model_cpool ^ ";case:" ^ show cpool));
+  (* current_num_threads() and current_thread_index().is_some() as observed at the call site *)
   (match get_opt args "threads" with
-   | Some t -> add "threads" (okb (int_of_string t = pool) ("observed:" ^ t))
+   | Some t -> add "threads" (okb (int_of_string t = model_threads && model_threads = pool)
+                                (Printf.sprintf "observed:%s;model:%d" t model_threads))
+   | None -> ());
+  (match get_opt args "worker" with
+   | Some w -> add "worker" (okb ((w = "1") = (model_cpool <> None)) ("observed:" ^ w))
    | None -> ());
   let cli = String.length prim > 4 && String.sub prim 0 4 = "cli_" in
   let fv = item_value prim len in
   let sched k = schedule seed (min k 6000) in
   let value = match get_opt args "value" with Some v -> Some (int_of_string v) | None -> None in
   if ord then begin
-    let in_g = (site = "gspawn" || site = "gdetach") in
     let fold a r = (a * 31 + r) mod ord_mod in
     let expected = if cli then get_int_def args "cliexpect" (-1)
       else List.fold_left fold 7 (List.map fv (nseq_int 0 items)) in
-    let out = pmf_ord_run (nat_of_int pool) (nat_of_int g) hint in_g (nat_of_int items) (sched (12 * items + 64)) in
+    let out = pmf_ord_run gw caller hint (nat_of_int items) (sched (12 * items + 64)) in
+    (* which branch the implementation took: in the sequential branch every item is mapped
+       on the calling thread, otherwise none is (the consumers map, the caller drains) *)
+    let seq = seq_branch gw caller in
+    (match get_opt args "oncaller" with
+     | Some v ->
+       let want = if seq then items else 0 in
+       add "branch" (okb (int_of_string v = want)
+                       (Printf.sprintf "mapped-on-caller:%s;model:%d" v want))
+     | None -> ());
     (match out with
      | OTerminated arr ->
        add "verdict" (okb terminated "model:terminates;impl:deadlock");
+       if seq && not cli then
+         add "seqorder" (okb (arr = nseq_int 0 items) "model:sequential-branch-out-of-order");
        let mv = if cli then expected else ord_value fv fold 7 arr in
        (match (if cli then None else value) with
         | Some v -> add "mvalue" (okb (mv = v) (Printf.sprintf "model:%d;impl:%d" mv v))
